@@ -13,3 +13,12 @@ Lemma concat_constants_ok :
   obs_label_allow_repeats = true /\ obs_scan_state_allow_repeats = true /\ obs_other_allow_repeats = [].
 Proof. repeat split; reflexivity. Qed.
 
+
+(* DataSet.select as Model/ConcatMulti.v assumes it: the time mask is reset to (spw_index == spw) & (subarray_index ==
+   subarray); every product list / channel grid read in select() is the one of the CURRENT subarray / window;
+   indices beyond the merged lists raise IndexError *)
+Lemma select_sw_constants_ok :
+  select_time_reset_sensors = ["Observation/spw_index"; "Observation/subarray_index"]%string /\
+  select_reads_only_current_subarray = true /\ select_reads_only_current_spw = true /\
+  select_sw_out_of_range_raises_indexerror = true.
+Proof. repeat split; reflexivity. Qed.
